@@ -72,8 +72,25 @@ def checksum_alone_program(rng, frame_len):
     return toks
 
 
+def sink_stress_program(rng):
+    """decode block by block; after every block hand the collectable bytes to a sink that accepts a little and then
+    fails or stalls, then retry with a willing sink: exercises partial writes on both ring segments and the guard that
+    drops exactly what was accepted"""
+    toks = ['I']
+    for _ in range(rng.range(6, 40)):
+        toks.append(rng.choice(['B?b1', 'B?b1', 'B?y300', 'B?y2000']))
+        for _ in range(rng.range(1, 3)):
+            toks.append('W%d,%d,%d' % (rng.choice([1, 7, 64, 1 << 20]), rng.choice([1, 3, 50, 200, 700, 1500, 3000]), rng.below(2)))
+        if rng.below(2):
+            toks.append('W%d,%d,0' % (rng.choice([5, 1000, 1 << 20]), 1 << 30))
+    toks.append('Z%s,%d' % (rng.choice('wrc'), rng.choice([3, 1000, 70000])))
+    return toks
+
+
 def random_program(rng, frame_len, has_checksum):
-    r = rng.below(10)
+    r = rng.below(13)
+    if r >= 10:
+        return sink_stress_program(rng)
     if r < 5:
         return blocks_program(rng)
     if r < 7:
